@@ -751,7 +751,7 @@ def run(ctx):
     ctx.notes['distribution'] = st
     # generator self-check: the proof-relevant families must have been drawn and must have been non-vacuous
     need = [('delaunay', 'family', 'concentric'), ('delaunay', 'family', 'collinear'), ('delaunay', 'tolerance', 'merge'),
-            ('delaunay', 'tolerance', 'sub'), ('constrained', 'holes', 'touching'), ('voronoi', 'env', 'user'), ('voronoi', 'ordered', 'yes'), ('voronoi', 'edges_only', 'yes'), ('voronoi', 'requests', 'PL'), ('voronoi', 'requests', 'LP'), ('delaunay', 'requests', 'ET'), ('delaunay', 'requests', 'TE'), ('voronoi', 'env_shape', 'hstrip'),
+            ('delaunay', 'tolerance', 'sub'), ('constrained', 'holes', 'touching'), ('constrained', 'empty_element_position', 'first'), ('constrained', 'wrapper', 'collection'), ('voronoi', 'env', 'user'), ('voronoi', 'ordered', 'yes'), ('voronoi', 'edges_only', 'yes'), ('voronoi', 'requests', 'PL'), ('voronoi', 'requests', 'LP'), ('delaunay', 'requests', 'ET'), ('delaunay', 'requests', 'TE'), ('voronoi', 'env_shape', 'hstrip'),
             ('voronoi', 'env_shape', 'vstrip'), ('voronoi', 'env_shape', 'offset'), ('voronoi', 'env_multiplier', '100'), ('voronoi', 'env_multiplier', '1000'),
             ('predicate', 'model_answer', '1'), ('predicate', 'model_answer', '0'), ('predicate', 'model_answer', '2')]
     for path in ([] if state['nviol'] > 8 else need):      # a run cut short by failures has not drawn everything
@@ -969,7 +969,7 @@ def do_delaunay(S, rng, n, corpus=False):
         fam, pts = make_site_case(rng, ctx.quick, fams)
         tol, regime = pick_tolerance(rng, pts)
         k = rng.choice([0, 0, 0, 0, 1, -1, 3, -7, 20, -20, 100, -100])
-        gt = rng.choice(['M', 'M', 'L', 'C'])
+        gt = rng.choice(['M', 'M', 'L', 'C', 'X'])
         if rng.random() < 0.35:      # several requests on ONE DelaunayTriangulationBuilder (C++ API)
             gt += ':' + rng.choice(DELAUNAY_SEQS)
         cases.append((fam, pts, tol, regime, k, gt))
@@ -1016,14 +1016,16 @@ def eval_constrained(S, cases):
     ctx = S['ctx']
     hl = []
     for fam, polys, k in cases:
-        hl.append('C %d %s' % (k, ' / '.join(poly_txt(rings) for rings in polys)))
+        # fam '<family>@G' / '@N': the polygons wrapped in a GEOMETRYCOLLECTION / nested collection; a polygon without rings is POLYGON EMPTY
+        tag = fam.split('@')[1] if '@' in fam else 'C'
+        hl.append('%s %d %s' % (tag, k, ' / '.join(poly_txt(rings) if rings else 'E' for rings in polys)))
     hout = run_harness(S, hl, timeout=900)
     res = []; dl = []; idx = []
     for ci, (c, ho) in enumerate(zip(cases, hout)):
         fam, polys, k = c
         r = dict(case=c, harness_line=hl[ci], impl=ho, verdict=None, why='', driver_line=None, driver='')
         res.append(r)
-        ptxt = ' '.join('P ' + poly_txt(rings) for rings in polys)
+        ptxt = ' '.join('P ' + poly_txt(rings) for rings in polys if rings)
         if ho.startswith('T'):
             recs = parse_tris(ho)
             if any(len(x) != 6 for x in recs) or '?' in ho or 'BAD' in ho:
@@ -1154,18 +1156,34 @@ def do_constrained(S, rng, n, corpus=False):
                 dx = x0 - min(xs) + rng.choice([0, 1, 5]); dy = -min(ys)
                 polys.append([[(x + dx, y + dy) for x, y in r] for r in rings]); x0 = max(xs) + dx
             if polys and in_bound([p for rings in polys for r in rings for p in r]):
-                cases.append(('multi', polys, k))
+                fam = 'multi'
+                if rng.random() < 0.6:      # EMPTY polygon elements at the front, in the middle, at the end
+                    for _e in range(rng.randint(1, 2)):
+                        polys.insert(rng.choice([0, 0, len(polys) // 2, len(polys)]), [])
+                    fam = 'multi-empty'
+                cases.append((fam + rng.choice(['', '', '@G', '@N']), polys, k))
             continue
         g = gen_polygon(rng, ctx.quick)
         if g is None: continue
+        if rng.random() < 0.06 and g[0] != 'bigthin':     # one polygon with EMPTY elements around it
+            polys = [g[1]]
+            for _e in range(rng.randint(1, 2)):
+                polys.insert(rng.choice([0, 0, len(polys)]), [])
+            cases.append(('single-empty' + rng.choice(['', '@G', '@N']), polys, k))
+            continue
+        if rng.random() < 0.01:
+            cases.append(('all-empty' + rng.choice(['', '@G']), [[], []], k)); continue
         cases.append((g[0], [g[1]], k))
     res = eval_constrained(S, cases)
     for r in res:
         fam, polys, k = r['case']
         st.inc('constrained', 'verdict', r['verdict'])
         if r['verdict'] == 'INVALID-INPUT':
-            st.inc('constrained', 'invalid_input_by_family', fam); continue
-        st.inc('constrained', 'family', fam)
+            st.inc('constrained', 'invalid_input_by_family', fam.split('@')[0]); continue
+        st.inc('constrained', 'family', fam.split('@')[0]); st.inc('constrained', 'wrapper', {'C': 'polygon/multipolygon', 'G': 'collection', 'N': 'nested collection'}[fam.split('@')[1] if '@' in fam else 'C'])
+        if any(not rings for rings in polys):
+            st.inc('constrained', 'empty_element_position', 'first' if not polys[0] else 'last' if not polys[-1] else 'middle')
+        polys = [rings for rings in polys if rings]
         nh = sum(len(rings) - 1 for rings in polys)
         st.inc('constrained', 'holes', '0' if nh == 0 else 'some')
         if nh:
@@ -1362,7 +1380,7 @@ def do_voronoi(S, rng, n):
             g = gen_clip_env(rng, pts)
             if g is not None:
                 pts, env, shape, mult = g
-        gt = rng.choice(['M', 'M', 'L', 'C'])
+        gt = rng.choice(['M', 'M', 'L', 'C', 'X'])
         if rng.random() < 0.3:       # several requests on ONE VoronoiDiagramBuilder (C++ API)
             gt += ':' + rng.choice(VORONOI_SEQS)
         cases.append((fam, pts, 0, k, flags, env, gt)); info[len(cases) - 1] = (shape, mult)
